@@ -7,6 +7,9 @@ import Vata.Proofs.PropAux
 import Vata.Proofs.Equivariance
 import Vata.Proofs.InclUpBdd
 import Vata.Proofs.InclDown
+import Vata.Properties.C01
+import Vata.Properties.C04_Pipeline
+import Vata.Properties.C05_Pipeline
 /-!
 # C19 – Results are invariant under renaming/reordering and obey the language laws
 
@@ -255,17 +258,69 @@ example : (checkInclUp InclDownEx.exG InclDownEx.exH 20).map (·.1) = some false
 example : InjOnStates (· + 10) InclDownEx.exG ∧ InjOnStates (fun q => 7 * q + 3) InclDownEx.exH :=
   ⟨by intro q q' _ _ h; simp only at h; omega, by intro q q' _ _ h; simp only at h; omega⟩
 
+/-! ### the same two clauses for ALL eight selections and for `Reduce` as coded -/
+
+/-- "every inclusion algorithm returns the same verdict", over all eight explicit selections (`C01Sel`,
+`Vata/Properties/C01.lean` – the upward selection with simulation included) and across twins: the verdict of the model of any
+selection on any renamed twin of the pair (`f`, `g` injective on the states of the operand they rename) is the verdict of
+the model of any other selection on the original pair – whatever the fuels -/
+theorem C19_every_selection_agrees_across_twins (s s' : C01Sel) (A B : TA) (f g : Nat → Nat) (hf : InjOnStates f A)
+    (hg : InjOnStates g B) (n n' : Nat) (b b' : Bool) (c c' : InclUp.Cert)
+    (h : s.model (reindex f A) (reindex g B) n = some (b, c)) (h' : s'.model A B n' = some (b', c')) : b = b' := by
+  have e := ((C01_every_selection_exact_total s _ _).1 n b c h).trans (incl_equivariant f g A B hf hg)
+  have e' := (C01_every_selection_exact_total s' A B).1 n' b' c' h'
+  cases b <;> cases b' <;> simp_all
+
+-- the upward selection with simulation on a twin of `exG ⊄ exH` against the non-recursive downward one on the original
+example : (C01Sel.upSim.model (reindex (· + 10) InclDownEx.exG) (reindex (fun q => 7 * q + 3) InclDownEx.exH) 40).map (·.1) =
+      some false ∧
+    (C01Sel.downNonrecSim.model InclDownEx.exG InclDownEx.exH 40).map (·.1) = some false := ⟨rfl, rfl⟩
+
+/-- "leaves the number of states produced by reduction … unchanged", for `Reduce` AS CODED (`SimPipe.reduceAsCoded`:
+`ComputeSimulation` through the LTS engine model, `RestrictToSymmetric`, `GetQuotientProjection`, `CollapseStates`,
+`RemoveUnreachableStates`; C05): on a renamed twin it produces the same number of states and of rules – no hypothesis on
+the collapse map is left -/
+theorem C19_reduce_as_coded_renaming (f : Nat → Nat) (A : TA) (hf : InjOnStates f A) (hrk : TaLts.Ranked A) (B B' : TA)
+    (h : SimPipe.reduceAsCoded A = some B) (h' : SimPipe.reduceAsCoded (reindex f A) = some B') :
+    B'.states.length = B.states.length ∧ B'.rules.length = B.rules.length := by
+  obtain ⟨e1, e2, _⟩ := C05_pipeline_size A hrk B h
+  obtain ⟨e1', e2', _⟩ := C05_pipeline_size (reindex f A) (ranked_reindex f A hrk) B' h'
+  obtain ⟨_, r1, r2, _⟩ := C19_reduction_renaming f A hf
+  exact ⟨by rw [e1', e1, r1], by rw [e2', e2, r2]⟩
+
+example : InjOnStates (· + 10) TaLtsEx.exA ∧ TaLts.Ranked TaLtsEx.exA ∧
+    (SimPipe.reduceAsCoded TaLtsEx.exA).map (·.states.length) = some 2 ∧
+    (SimPipe.reduceAsCoded (reindex (· + 10) TaLtsEx.exA)).map (·.states.length) = some 2 :=
+  ⟨by intro q q' _ _ h; simp only at h; omega, TaLts.rankedB_iff.mp (by decide), by decide +kernel, by decide +kernel⟩
+
 /-!
+## closed since the last refresh of this file
+
+* **"That the map the C++ derives (`GetQuotientProjection`) is a quotient projection is the hypothesis, see C05"** – closed:
+  `C05_model_projection`, `C05_pipeline_refines_reduceModel` (the computed map is a quotient projection), and for `Reduce` as
+  coded the size statement without any hypothesis on the map: `C19_reduce_as_coded_renaming`.
+* **"Dumped-and-reloaded form: the round trip is proved on the level of descriptions (C13), not as a `LangEq` between tree
+  automata"** – closed for the explicit tree encoding in `Vata/Properties/C19_LoadDump.lean`: `C19_dump_reload_equivalent`,
+  `C19_dump_reload_text_equivalent`, `C19_load_dump_reload_equivalent`; and "registering the symbols in a different order" is
+  no longer an assumed injective map but derived from the loader (`C19_load_order_invariance`, `C19_load_order_emptiness`).
+* **"the selection *upward with simulation* has no model"** – it has (`Vata/InclUpSim.lean`, `C01_upward_sim_prepared_exact`,
+  `C01_upward_sim_agrees`); all eight selections, across twins: `C19_every_selection_agrees_across_twins`.  The BDD selections:
+  `C07_every_selection_exact`; the word-automata algorithms: `C09_every_algorithm_exact_total`.
+* The simulation relations under renaming, for `ComputeSimulation` as coded: `C04_pipeline_numbering_independent`; for the
+  reference relations: `C19_simulation_renaming`, `C04_numbering_independent`.
+* Totality of the engine behind every language law the driver checks: `C19_reference_total`, `C19_reference_bound`,
+  `C19_reference_fuel_irrelevant` (`Vata/Properties/RefTotal.lean`).
+
 ## not yet proved
 
-* **Reduction under renaming** is proved for the model `removeUnreachable (reindex h A)` with any quotient projection
-  `h` (`IsQuotProj`, `C19_reduction_renaming_any_choice`; with the canonical one as an equality of automata,
-  `C19_reduction_renaming`).  That the map the C++ derives (`GetQuotientProjection`) is a quotient projection is the
-  hypothesis, see C05.
-* **Dumped-and-reloaded form**: the round trip is proved on the level of descriptions (C13), not as a `LangEq` between
-  tree automata.
-* **"Every inclusion algorithm returns the same verdict"**: `C19_inclusion_algorithms_agree` covers the models of the
-  explicit upward and downward selections and of the BDD bottom-up upward algorithm (C01, C07); the selection *upward with
-  simulation* has no model, and the word-automata algorithms are C09 (`C09_all_algorithms_agree`).
+* **Dumped-and-reloaded form for the other encodings**, and the `Dumpable` hypothesis for the RESULTS of operations: that the
+  state dictionary the command-line tool builds for a union or an intersection names the result's states injectively.  For
+  the union it does (`Util_Glue_unionNames_injective`, `Util_Glue_unionDict`); for the intersection it does NOT in general
+  (`Util_Glue_productNames_collide`: two product states can get one name, and the dumped automaton then has a larger language
+  – a finding; injective when one operand's names are free of `|`, `Util_Glue_productNames_injective`).  So "A is equivalent to
+  its dumped-and-reloaded form" can fail for an intersection dumped by the command line.
+* "Adding their rules in a different order" is modelled by another rule LIST with the same set of rules; the hash order of the
+  containers, which is what really changes, is not an object of the models (every theorem holds for every list order).
+* `C19_reduce_as_coded_renaming` needs `Ranked A` (always true for the explicit encoding).
 -/
 end Vata.Props
